@@ -223,7 +223,69 @@ CLAIMED.update({
         design_ref="4/C19, 3.3, 3.2"),
 })
 
+CLAIMED.update({
+    "C12": dict(
+        engine="SaveLoad", category="model_checking",
+        text=("TLC enumerates every valid configuration of specs/SaveLoad.tla (4 model kinds x dimension 1-3 given or not x source "
+              "dimension unspecified / 0 / 1 / 2 x noise default / scalar / diagonal x named or default features x instance name = "
+              "kind or custom x origin fit or hand-written file: 792 configurations) and checks SurvivesSaveLoad on the intended "
+              "design and SurvivesExceptNamed on the as-built one (three named deviations); configurations are executed on the real "
+              "code (tiny fit, save, load, optional hand-edited file, re-save): population variables at prior modes after the fit, "
+              "derived values consistent with the saved parameters, load outcome, parameters / hyper-parameters / trajectories at "
+              "5 ages equal to single precision, re-saved file equal in structure and to single precision; TLC compares every "
+              "record with Expected (SaveLoadTrace.tla) and checks coverage."),
+        note=("Quick tier runs a stratified sample of the configurations, thorough all of them. 'Reproduces the file' is judged on "
+              "the JSON content (structure, numbers to single precision, version field ignored). Three known findings modelled as "
+              "named deviations."),
+        technique="TLA+ case table + TLC exhaustive; spec-enumerated configurations run on the code; code->spec conformance",
+        design_ref="4/C12"),
+    "C17": dict(
+        engine="Personalize", category="model_checking",
+        text=("TLC checks KeptExactly, ModeIsArgmin (first draw on ties), MeanOverKept and AcceptedReturns of specs/Personalize.tla "
+              "for every number of iterations <= 5, every burn-in length, 2 individuals and 3 abstract loss levels; real "
+              "mean_posterior / mode_posterior runs (model kinds x n_iter 2-6 x burn-in fractions incl. 0 and 1 x annealing x cohorts "
+              "with missing data, a one-visit subject, identifiers in non-sorted order) are recorded - the chain after every "
+              "iteration, the samples handed to the estimator, attachment + regularity per draw - and TLC checks "
+              "(PersonalizeTrace.tla) that exactly the iterations after burn-in are kept, the mode is the first kept draw of lowest "
+              "loss per individual, the mean is bit-equal to the mean of the kept draws, outputs are keyed by the input identifiers "
+              "in input order, finite and shaped as the model expects; scipy_minimize runs are recorded through the optimiser call: "
+              "the objective at the returned point is not worse than at the starting point."),
+        note=("Sampled settings (stratified); the chain is matched to the kept samples by bit-equality. Known finding: the mixture "
+              "model cannot be personalized. One defect fixed (burn-in covering all iterations)."),
+        technique="TLA+ spec + TLC exhaustive; code->spec conformance of recorded personalizations",
+        design_ref="4/C17"),
+    "C18": dict(
+        engine="SimDesign", category="model_checking",
+        text=("TLC enumerates every design with at most 2 (3 thorough) attributes off the valid base over 12 attribute classes of "
+              "specs/SimDesign.tla and checks Honoured (valid => completes, invalid => refused) on the intended design; every "
+              "enumerated design is made concrete and run on a real fitted model under a 10 s watchdog; TLC compares the outcome "
+              "class (completes / refused / crash class / timeout) with the as-built Outcome (nine named deviations) and checks the "
+              "post-conditions of completed runs: exact individuals, unique increasing ages rounded to the precision implied by the "
+              "spacing, finite values in [0,1] for every feature, one parameter set per individual (SimDesignTrace.tla)."),
+        note=("Nine known findings (validation gaps) are named deviations of the specification; any other deviation is reported. "
+              "Non-termination is judged by a 10 s watchdog (valid small designs take < 1 s)."),
+        technique="TLA+ case table + TLC exhaustive; spec-enumerated designs run on the code; code->spec conformance",
+        design_ref="4/C18"),
+    "C20": dict(
+        engine="Benchmarks", category="model_checking",
+        text=("TLC evaluates the four estimators of the constant model exactly on every history of 1-3 visits (all age orders, values "
+              "in {1,2,3,NaN}) and the conditional means of the LME random effects exactly (closed 1x1 / 2x2 inverse) on integer "
+              "cases (specs/Benchmarks.tla: LastKnownExtendsLast, MeanBetween, Shrinks); every enumerated case is run through "
+              "ConstantModel.personalize / estimate and, with parameters injected through load_parameters, through "
+              "LMEModel.personalize / estimate; TLC compares the results, as numerators over the specification's denominators, with "
+              "the specification (BenchmarksTrace.tla); fitted univariate cohorts with and without random slope are compared with "
+              "the reference mixed-model library's random effects on the training individuals."),
+        note=("Exact on the enumerated cases (float64 results compared with rationals within 1e-9 relative); agreement with the "
+              "reference library within 1e-4 relative."),
+        technique="TLA+ closed forms evaluated exactly by TLC; spec-enumerated cases run on the code; code->spec conformance",
+        design_ref="4/C20"),
+})
+
 ENGINES = {
+    "SaveLoad": dict(path="specs/SaveLoad.tla", kind="TLA+ case table of model configurations through fit / save / load (+ SaveLoadTrace.tla)"),
+    "Personalize": dict(path="specs/Personalize.tla", kind="TLA+ state machine of sampling-based personalization bookkeeping (+ PersonalizeTrace.tla)"),
+    "SimDesign": dict(path="specs/SimDesign.tla", kind="TLA+ case table of simulation designs: validity, outcome, post-conditions (+ SimDesignTrace.tla)"),
+    "Benchmarks": dict(path="specs/Benchmarks.tla", kind="TLA+ exact estimators of the constant and LME benchmark models (+ BenchmarksTrace.tla)"),
     "Trajectory": dict(path="specs/Trajectory.tla", kind="TLA+ trajectory terms, estimate() layout machine and gauge algebra (+ TrajectoryTrace.tla)"),
     "Likelihood": dict(path="specs/Likelihood.tla", kind="TLA+ symbolic negative log-densities with Weibull case structure (+ LikelihoodTrace.tla)"),
     "Masking": dict(path="specs/Masking.tla", kind="TLA+ extended-real algebra of masked tensors (+ MaskingTrace.tla)"),
